@@ -1,13 +1,25 @@
+// A conditional with one void arm is void; the other arm may have any type.
+// chibicc leaves a long double arm on the x87 register stack (one slot per
+// evaluation): after 8 evaluations long double arithmetic yields NaN.
+// expected (gcc): "then-arm: 3.000000", "else-arm: 3.000000", exit 0
 #include <stdio.h>
 long double f(void) { return 1.5L; }
 int main(void) {
-  int c = 1;
+  int c = 1, bad = 0;
   long double x = 2.0L;
-  for (int i = 0; i < 10; i++)
+  for (int i = 0; i < 5; i++)
     c ? x : (void)0;
-  for (int i = 0; i < 10; i++)
+  for (int i = 0; i < 5; i++)
     c ? f() : (void)0;
   long double y = x + 1.0L;
-  printf("%Lf\n", y);
-  return y == 3.0L ? 0 : 1;
+  printf("then-arm: %Lf\n", y);
+  bad |= !(y == 3.0L);
+  asm("fninit");
+  c = 0;
+  for (int i = 0; i < 10; i++)
+    c ? (void)0 : f();
+  y = x + 1.0L;
+  printf("else-arm: %Lf\n", y);
+  bad |= !(y == 3.0L);
+  return bad;
 }
